@@ -335,6 +335,36 @@ def definite_clashes(t):
     return [(p, d) for (p, child, param, d) in argument_positions(t) if not (definite(child) & param)]
 
 
+def eq_sibling_positions(t, path=()):
+    """(path, child, sort of the sibling) for operands of = / != whose sibling
+    certainly has one base type (a literal or an operator / function result)."""
+    out = []
+    if t[0] == 'bin' and t[1] in ('=', '!='):
+        for me, sib in ((2, 3), (3, 2)):
+            d = definite(t[sib])
+            if len(d) == 1 and d <= PRIMITIVE:
+                out.append((path + (me,), t[me], d))
+    for i, x in enumerate(t[1:], start=1):
+        if isinstance(x, tuple):
+            if x and isinstance(x[0], str):
+                out += eq_sibling_positions(x, path + (i,))
+            else:
+                for j, y in enumerate(x):
+                    if isinstance(y, tuple) and y and isinstance(y[0], str):
+                        out += eq_sibling_positions(y, path + (i, j))
+    return out
+
+
+def eq_clashes(t):
+    """= / != between two operands that certainly have different single base types."""
+    out = []
+    for u_path, child, sib in eq_sibling_positions(t):
+        d = definite(child)
+        if len(d) == 1 and not (d & sib):
+            out.append(u_path)
+    return out
+
+
 def replace_at(t, path, new):
     if not path:
         return new
